@@ -157,3 +157,9 @@ package types
 // merkle root over the transaction ids (common/merkle, C17): a function of the ordered list of transaction objects
 //@ func (Transactions).MerkleRootSha   pure trusted
 //@   opt reads=[]*Transaction
+
+// merkle roots over deputy nodes / change logs (common/merkle + keccak, C17): functions of the listed objects' contents
+//@ func (DeputyNodes).MerkleRootSha   pure trusted
+//@   opt reads=heap
+//@ func (ChangeLogSlice).MerkleRootSha   pure trusted
+//@   opt reads=heap
